@@ -42,7 +42,9 @@ Inductive cstep :=
 | SReload (pre post : store) (lookups : list (Z * option sname * option (nat * nat) * option (nat * nat)))
 (* promises kept: every name an operation returned earlier (and that no later operation redefined on purpose) must
    still find the style with that content: (family, name, content id, what Document.get_style returns now) *)
-| SFound (st : store) (promises : list (Z * sname * Z * option (nat * nat))).
+| SFound (st : store) (promises : list (Z * sname * Z * option (nat * nat)))
+(* a second document alive in the same process, not operated on: its containers before / after an operation on its twin *)
+| SUntouched (before after : store).
 
 (* 1 wrong container | 2 uniqueness lost | 3 not found again | 4 something else changed / lost | 5 generated name
    collides | 6 other document changed by merge | 7 merge is not the union with the other winning | 8 reload differs
@@ -168,6 +170,7 @@ Definition chk0 (c : cstep) : nat :=
     else if forallb (fun q => let '(f, n, before, after) := q in
                               match doc_get_style T post f n with Ok r => opt_eqb loc_eqb r after | Err => false end) lookups
          then 0%nat else 9%nat
+  | SUntouched before after => if store_eqb before after then 0%nat else 6%nat
   | SFound st promises =>
     if negb (forallb (fun q => let '(f, n, id, found) := q in
                         match found with
@@ -194,6 +197,7 @@ Definition pre_post (c : cstep) : bool * option store :=
   | SPageBreak pre _ _ _ impl _ => (inv2b T pre, match impl with Done post => Some post | _ => None end)
   | SReload pre post _ => (inv2b T pre, Some post)
   | SFound st _ => (true, None)
+  | SUntouched _ _ => (true, None)
   end.
 Definition chk (c : cstep) : nat :=
   match chk0 c with
